@@ -136,7 +136,11 @@ def num_mismatch(got, exp: Num):
     v = exp.value
     if exp.rule == "exact":
         if v.denominator == 1:
-            return None if got == v.numerator else f"{got!r} != {v.numerator}"
+            if got == v.numerator:
+                return None
+            if abs(v.numerator) > 2**53 and isinstance(got, float) and got == v.numerator / 1:
+                return None  # an integral value too large for a double to hold exactly: the correctly rounded double is accepted
+            return f"{got!r} != {v.numerator}"
         want = v.numerator / v.denominator  # true division of ints = correctly rounded double
         return None if got == want else f"{got!r} != {want!r} (correctly rounded {v})"
     # stated tolerance: 4 * 2^-53 relative
@@ -271,7 +275,7 @@ def aidon_list_st(draw):
             kind, exp, unit = AIDON_REG[code]
             if any_type:
                 kind = draw(st.sampled_from(["u32", "i16", "u16"]))
-            exp = draw(st.sampled_from([exp, exp, 0, -1, 1, -2, 2, -3, 3]) if not wide_scaler else st.integers(-6, 6))
+            exp = draw(st.sampled_from([exp, exp, 0, -1, 1, -2, 2, -3, 3]) if not wide_scaler else (st.integers(-6, 6) | st.sampled_from([-128, -40, -30, -20, -19, 7, 15, 16, 18, 19, 20, 22, 27, 28, 29, 30, 38, 127])))  # the scaler is an int8
             unit = draw(st.sampled_from([unit, unit] + list(UNITS)))
             out.append(("reg", code, kind, draw(reg_st(kind)), exp, unit))
     return (layout, out)
